@@ -793,6 +793,36 @@ def _edge_universe(body):
     return None
 
 
+def reduce_dnf(terms, uni):
+    """absorption and merging (X&(D=l1) | X&(D=l2) | .. over every label of D = X) of a set of frozensets of
+    (discriminant, label), in a deterministic order; `uni` = {discriminant: set of all its edge labels}"""
+    terms = set(terms)
+    changed = True
+    while changed:
+        changed = False
+        # absorption: X | X&Y = X
+        for a in list(terms):
+            if any(b < a for b in terms):
+                terms.discard(a)
+                changed = True
+        # merging: X&(D=l1) | X&(D=l2) | ... covering every label of D  =  X
+        byrest = {}
+        key = lambda t: sorted(t)
+        for t in sorted(terms, key=key):                     # deterministic order: the reduction is not confluent
+            for (d, l) in sorted(t):
+                byrest.setdefault((t - {(d, l)}, d), set()).add(l)
+        for (rest, d), labs in sorted(byrest.items(), key=lambda kv: (sorted(kv[0][0]), kv[0][1])):
+            is_vals = set(l for l in labs if not l.startswith("!{"))
+            nots = [set(x for x in l[2:-1].split(",") if x) for l in labs if l.startswith("!{")]
+            if len(labs) > 1 and (labs >= uni.get(d, {"?"}) or any(n <= is_vals for n in nots)):
+                for l in labs:
+                    terms.discard(rest | {(d, l)})
+                terms.add(rest)
+                changed = True
+                break
+    return terms
+
+
 def complete_conds(body, bi, limit=3000):
     """The condition under which block `bi` is entered, as a reduced DNF over ALL switch decisions on the acyclic paths
     from the entry (not only the dominating ones, so `a || b`, or-patterns and `!= k` edges are not lost).  Rendered as
@@ -819,27 +849,7 @@ def complete_conds(body, bi, limit=3000):
         if r is not None:
             folded.add(frozenset((d, v[1] if v[0] == "is" else "!{%s}" % ",".join(sorted(v[1]))) for d, v in r.items()))
     terms = folded
-    changed = True
-    while changed:
-        changed = False
-        # absorption: X | X&Y = X
-        for a in list(terms):
-            if any(b < a for b in terms):
-                terms.discard(a)
-                changed = True
-        # merging: X&(D=l1) | X&(D=l2) | ... covering every label of D  =  X
-        byrest = {}
-        key = lambda t: sorted(t)
-        for t in sorted(terms, key=key):                     # deterministic order: the reduction is not confluent
-            for (d, l) in sorted(t):
-                byrest.setdefault((t - {(d, l)}, d), set()).add(l)
-        for (rest, d), labs in sorted(byrest.items(), key=lambda kv: (sorted(kv[0][0]), kv[0][1])):
-            if len(labs) > 1 and labs >= uni.get(d, {"?"}):
-                for l in labs:
-                    terms.discard(rest | {(d, l)})
-                terms.add(rest)
-                changed = True
-                break
+    terms = reduce_dnf(terms, uni)
     def atom(d, l):
         if l.startswith("!{"):
             return "%s!in%s" % (d, l[1:])
@@ -901,7 +911,23 @@ def skeleton(F, path, depth=0):
     for bi, txts in per.items():
         for i, txt in enumerate(txts):
             ranked.append((rank.get(bi, 0) + i, txt))
-    s = " ;; ".join(x for _, x in sorted(ranked))
+    # entries that do the same thing at the same depth under different conditions (separate match arms vs one
+    # or-pattern arm) are one entry under the disjunction of the conditions
+    merged = {}
+    for rk, txt in ranked:
+        m = re.match(r"(@*)\[(.*?)\] (.*)$", txt, re.S)
+        if not m:
+            merged.setdefault((rk, txt, ""), set())
+            continue
+        merged.setdefault((rk, m.group(1), m.group(3)), set()).update(x for x in m.group(2).split(" | "))
+    flat = []
+    for key, conds in merged.items():
+        if len(key) == 3 and key[2] == "" and not conds:
+            flat.append((key[0], key[1]))
+        else:
+            rk, nest, rest = key
+            flat.append((rk, "%s[%s] %s" % (nest, " | ".join(sorted(conds)), rest)))
+    s = " ;; ".join(x for _, x in sorted(flat))
     if depth > 3:
         return anon_locals(s)
 
